@@ -5,6 +5,7 @@ package main
 
 import (
 	"encoding/base64"
+	"encoding/json"
 	"fmt"
 	"os"
 	"path/filepath"
@@ -22,8 +23,35 @@ type ParCase struct {
 	Origin  string   `json:"origin"`
 	Workers int      `json:"workers"`
 	Tape    []int    `json:"tape"`
-	Cmd     []string `json:"cmd,omitempty"` // system-level corollary: run this command at 1 and at Workers CPUs
+	Cmd     []string `json:"cmd,omitempty"`     // system-level corollary: run this command at 1 and at Workers CPUs
 	NFiles  int      `json:"n_files,omitempty"` // the text is split into this many input files (record-wise)
+	Via     string   `json:"via,omitempty"`     // how a command gets the text: "" file argument | stdin | default (default bookmark, no argument) | bookmark (@b)
+}
+
+// deliver arranges how a command finds its input (file argument, piped into stdin, default bookmark, @bookmark)
+// and returns the arguments and the stdin content. Mutating commands always get the file argument.
+func deliver(via string, cmd []string, file, cfgDir string) (argv []string, stdin string, how string) {
+	argv = append([]string{}, cmd...)
+	if mutatingCmd[cmd[0]] {
+		via = ""
+	}
+	bookmarks := func(name string) {
+		bj, _ := json.Marshal([]map[string]string{{"name": name, "path": file}})
+		_ = os.WriteFile(filepath.Join(cfgDir, "bookmarks.json"), bj, 0o644)
+	}
+	_ = os.Remove(filepath.Join(cfgDir, "bookmarks.json"))
+	switch via {
+	case "stdin":
+		b, _ := os.ReadFile(file)
+		return argv, string(b), "stdin"
+	case "default":
+		bookmarks("default")
+		return argv, "", "default"
+	case "bookmark":
+		bookmarks("b")
+		return append(argv, "@b"), "", "bookmark"
+	}
+	return append(argv, file), "", "file"
 }
 
 func (p *ParCase) text() string {
@@ -148,6 +176,8 @@ func (parEngine) generate(property string, seed int64, index int, tier string) *
 			pc.NFiles = r.Range(2, 6)
 			pc.Cmd = cmds[r.Intn(10)]
 			pc.Workers = r.Pick2([]int{2, 2, 3, 4, 8})
+		} else if r.Chance(1, 3) {
+			pc.Via = r.Pick([]string{"stdin", "stdin", "default", "bookmark"})
 		}
 	}
 	pc.setText(text)
@@ -360,7 +390,8 @@ func parExecuteCmd(sc *Scenario, out *Outcome) *Outcome {
 	file := filepath.Join(root, "a.klg")
 	_ = os.WriteFile(file, []byte(pc.text()), 0o644)
 	_ = os.MkdirAll(filepath.Join(root, "cfg"), 0o755)
-	argv := append(append([]string{}, pc.Cmd...), file)
+	argv, stdin, how := deliver(pc.Via, pc.Cmd, file, filepath.Join(root, "cfg"))
+	out.stat("input_via_"+how, 1)
 	if pc.NFiles > 1 {
 		// split the text record-wise (at blank lines) into NFiles files
 		parts := splitAtBlankLines(pc.text(), pc.NFiles)
@@ -375,7 +406,7 @@ func parExecuteCmd(sc *Scenario, out *Outcome) *Outcome {
 	run := func(cpus int, tape []int) ProcResult {
 		_ = os.WriteFile(file, []byte(pc.text()), 0o644)
 		defer func() { b, _ := os.ReadFile(file); after[cpus] = string(b) }()
-		return runProc(&ProcSpec{Argv: argv, Tape: tape, Cpus: cpus, Root: root,
+		return runProc(&ProcSpec{Argv: argv, Tape: tape, Cpus: cpus, Root: root, Stdin: stdin,
 			Base: time.Date(2024, 3, 15, 12, 0, 0, 0, time.UTC),
 			Env:  map[string]string{"KLOG_CONFIG_HOME": filepath.Join(root, "cfg"), "NO_COLOR": "1"}})
 	}
